@@ -4,3 +4,5 @@ import XzVerif.Props.C16
 #print axioms Props.C16.C16_reader_iff_legal
 #print axioms Props.C16.C16_reject_position
 #print axioms Props.C16.C16_writer_legal
+#print axioms Props.C16.C16_lazy_reader_decodes_every_legal_sequence
+#print axioms Props.C16.C16_lazy_reader_rejects_at_offending_chunk
